@@ -1745,6 +1745,10 @@ func resolveIndex(v, index reflect.Value, indexAsStr string) (reflect.Value, err
 		if !indexVal.Type().ConvertibleTo(v.Type().Key()) {
 			return reflect.Value{}, fmt.Errorf("can't use %s (%s) as key for map of type %s", indexAsStr, indexVal.Type(), v.Type())
 		}
+		if !indexVal.Type().Comparable() {
+			// only possible with interface-typed keys; MapIndex would panic with "hash of unhashable type"
+			return reflect.Value{}, fmt.Errorf("can't use a value of type %s as key for map of type %s: the type is not hashable", indexVal.Type(), v.Type())
+		}
 		index = indexVal.Convert(v.Type().Key()) // noop in most cases, but not expensive
 		return indirectEface(v.MapIndex(index)), nil
 	case reflect.Ptr:
